@@ -196,6 +196,12 @@ def ext (c : Case) : Verdict :=
         .propFail tag "body-does-not-decode-to-the-normalised-extension"
       else if wf ∧ hasWriterB e ∧ o.get "write" ≠ some (describe (norm e)) then
         .propFail tag "Write-of-own-body-differs-from-documented-normalisation"
+      else if wf ∧ hasWriterB e ∧ o.get "reread" ≠ some (
+          let ne := norm e
+          match ne, Ext.read ne (len ne) with
+          | greaseECH .., .ok b2 => s!"ok:ech:{hex (b2.take 9)}:{b2.length}"
+          | _, rr => readStr rr) then
+        .propFail tag "re-encoding-differs-from-the-normalised-encoding"
       else if model = impl then .ok tag else .diff tag model
     | none =>
       if implRead.startsWith "ok" then .bad "unparsable read" else
